@@ -41,6 +41,12 @@ def specs(rng, tier, wid, nw, env):
     for i in range(60 if q else 600):
         k += 1
         if k % nw == wid: yield ('hugeidx', rng.choice([0, 1, 1, 2, 3, 9]), rng.getrandbits(48))
+    # perfect powers by their factorisation: products of small primes (the trial-division path) with every gcd structure of the exponents,
+    # both signs (negative: only odd exponents count, so gcd 2, 4, 8 is NOT a perfect power, 6 and 12 are), with and without a large cofactor
+    for g in (1, 2, 3, 4, 5, 6, 8, 9, 10, 12, 16):
+        for j in range(150 if q else 1500):
+            k += 1
+            if k % nw == wid: yield ('pp', 'smooth:%d' % g, rng.getrandbits(48))
     N = 2500 if q else 100000
     for i in range(N):
         c = rng.random()
@@ -149,10 +155,16 @@ def build(spec, env):
         if cons == 'pow': w = r.randint(2, 200) ** r.randint(2, 12)
         elif cons == 'powneg': w = -(r.randint(2, 60) ** r.randint(2, 11))
         elif cons == 'near': w = r.randint(2, 200) ** r.randint(2, 12) + r.choice([-1, 1])
+        elif cons.startswith('smooth:'):
+            g = int(cons[7:]); w = 1
+            ps = r.sample([2, 2, 3, 3, 5, 7, 11, 13, 31, 101, 997] + ([1009, 1013, 65537] if r.random() < 0.3 else []), r.randint(1, 4))
+            for p_ in set(ps): w *= p_ ** (g * r.choice([1, 2, 3, 3, 5, 5, 6, 7] if g < 8 else [1, 2, 3, 5]))
+            if r.random() < 0.25: w *= r.choice([2, 3, 7, (1 << 61) - 1, 4294967311]) ** r.choice([1, g, 2 * g])      # spoil or keep the structure
+            if r.random() < 0.5: w = -w
         elif cons == 'small': w = r.randint(-300, 300)
         elif cons == 'sqr': w = gen.nat(r, r.randint(1, 4)) ** 2 * r.choice([1, 1, -1])
         else: w = gen.val(r, 3)
-        if r.random() < 0.2: w = (gen.nat(r, r.randint(1, 3)) ** r.choice([2, 3, 5, 6, 7])) * r.choice([1, -1])
+        if r.random() < 0.2 and not cons.startswith('smooth'): w = (gen.nat(r, r.randint(1, 3)) ** r.choice([2, 3, 5, 6, 7])) * r.choice([1, -1])
         cmds = ['z Z1 %s' % hx(w), 'c mpz_perfect_power_p Z1', 'c mpz_perfect_square_p Z1']
         def check(rep, w=w):
             out = []
@@ -161,5 +173,5 @@ def build(spec, env):
             v, _ = split_reply(rep[2]); es = w >= 0 and math.isqrt(w) ** 2 == w
             if (int(v[0]) != 0) != es: out.append(('mpz_perfect_square_p:wrong', 'u=%s got=%s' % (hx(w), v[0])))
             return out
-        return Case(cmds, check, 2, ('pp', cons, w < 0, min(abs(w).bit_length(), 200)))
+        return Case(cmds, check, 2, ('pp', cons, w < 0, min(abs(w).bit_length(), 200) // 8))
     raise ValueError(kind)
